@@ -6,9 +6,9 @@ from contracts.workspace_io import CloseContract
 from contracts.histories import ApiHistories
 from contracts.reader import CONTRACTS as _R
 from contracts.alignment import CONTRACTS as _A
-from contracts.concat import ConcatHistories
+from contracts.concat import ConcatHistories, DeleteIndexData, FetchStartIndex
 from contracts.writer import StoredEditsNative
-CONTRACTS = list(_H) + list(_T) + [c for c in _R if c.__name__ != 'SingleDeletionSweep'] + list(_A) + [RemoveRecursively, RemoveDataFromGroups, RemoveNoneReferents, CloseContract, ApiHistories, ConcatHistories, StoredEditsNative]
+CONTRACTS = list(_H) + list(_T) + [c for c in _R if c.__name__ != 'SingleDeletionSweep'] + list(_A) + [RemoveRecursively, RemoveDataFromGroups, RemoveNoneReferents, CloseContract, ApiHistories, ConcatHistories, StoredEditsNative, DeleteIndexData, FetchStartIndex]
 
 MANIFEST = {
     "category": "other",
